@@ -55,7 +55,9 @@ def extract_table() -> Dict[str, List[Dict[str, Any]]]:
 BANKS = [RegisterName.R, RegisterName.C, RegisterName.Q, RegisterName.M]
 
 
-def reg(code: int) -> O.Register:
+def reg(code) -> O.Register:
+    if isinstance(code, tuple):  # (bank, raw index): used to build out-of-range registers
+        return O.Register(BANKS[code[0]], code[1])
     return O.Register(BANKS[code // 16], code % 16)
 
 
